@@ -33,7 +33,7 @@ type NodesWithTagPathExpr struct{}
 func (e *NodesWithTagPathExpr) Evaluate(engine *Engine, input interface{}, args []*Statement) (interface{}, error) {
 	in := reflect.ValueOf(input)
 
-	if input == nil || in.IsNil() {
+	if gedcom.IsNil(input) {
 		return gedcom.Nodes(nil), nil
 	}
 
@@ -63,7 +63,13 @@ func (e *NodesWithTagPathExpr) Evaluate(engine *Engine, input interface{}, args 
 	// Process slice input.
 	var results gedcom.Nodes
 	for i := 0; i < in.Len(); i++ {
-		node := in.Index(i).Interface().(gedcom.Node)
+		node, ok := in.Index(i).Interface().(gedcom.Node)
+		if !ok {
+			return gedcom.Nodes(nil), fmt.Errorf(
+				"NodesWithTagPath can only be used on nodes, not %s",
+				in.Index(i).Type())
+		}
+
 		results = append(results, gedcom.NodesWithTagPath(node, argValues...)...)
 	}
 
